@@ -4,6 +4,11 @@ Parameterized objects and records the observations the Lean driver understands
 
 Case format
   prop     : "C02" | "C08"                 which oracle the driver evaluates
+  hooks    : [{"t":t,"a":a,"b":b,"k":k}, ...]   user watchers that assign: T<t>.param.watch(cb, ['p<a>'], onlychanged=False),
+                                           cb: `try: t.p<b> = k  except (ValueError, TypeError): pass`  (registered after the
+                                           universal watcher; they do not chain and do not assign what they watch)
+  falsy_src: bool (default false)          the source class defines __bool__ -> False (an "empty" Parameterized)
+  nsread   : bool (default false)          the targets' Parameter classes read `self.owner.param` while validating
   sub      : bool (default false)          every target class T<t> is an empty subclass of a class that declares the
                                            parameters, so a class-level assignment `T<t>.p = v` meets an *inherited* Parameter
   nsp      : number of Integer parameters v0.. of every source object
@@ -21,6 +26,7 @@ Case format
      {"op":"ctxEnter","t":t,"kvs":[[p,rhs],..]}  r = t.param.update({...}); r.__enter__()   (restorer pushed)
      {"op":"ctxExit"}                            r.__exit__(None, None, None)               (restorer popped)
      {"op":"srcSet","s":s,"i":i,"v":n}           S<s>.v<i> = n
+     {"op":"lock","t":t,"p":p}                   t.param.p<p>.constant = True   (the instance's own Parameter copy)
   rhs  : {"k":"atom","a":atom} | {"k":"cont","items":[atom, ...]}        a tuple of atoms
        | {"k":"gen"}   the case's shared number generator (a plain callable, i.e. a Dynamic value; it is also the
                        value of the witness parameter W.a); only ever assigned where it must be rejected: a
@@ -37,7 +43,8 @@ Observation: {"ctor_err": null | name, "init": state, "steps": [state + {"err":â
            "watch": [[[t, ...] per parameter] per source],     -- `_sync_refs` watchers, registration order
            "own": [[1 if T<t> itself holds the Parameter p (not inherited) ...] per target],
            "aux": [[e_ value, e_ mode, class e_ mode, constant flag of each parameter (the instance's Parameter, then
-                    the class Parameter), syncing names...] per target] + [[W.a, inspect_value(W.a)]]}
+                    the class Parameter), "the class namespace names the Parameter that attribute lookup finds" per
+                    parameter, syncing names...] per target] + [[W.a, inspect_value(W.a)]]}
              -- state that must never move: the Event parameter idle (False, 'set-reset'), `syncing` empty,
              -- the shared generator's witness value (under Dynamic.time_dependent) undisturbed
   log   = [["s"|"t", index, [[p, new], ...]], ...]             -- one entry per call of the universal watcher
@@ -46,6 +53,7 @@ assignment left out (an `update` rejected at its k-th key is replaced by the upd
 """
 
 
+import inspect
 import json
 
 
@@ -128,12 +136,32 @@ class Runner:
         self.stack = []
         nsp = case['nsp']
         self.snames = [f'v{i}' for i in range(nsp)]
-        S = type('S', (param.Parameterized,), {n: param.Integer(default=0) for n in self.snames})
+        sns = {n: param.Integer(default=0) for n in self.snames}
+        if case.get('falsy_src'):
+            sns['__bool__'] = lambda self: False          # truthiness must never matter to the link machinery
+        S = type('S', (param.Parameterized,), sns)
         self.srcs = []
         for k, row in enumerate(case['src_init']):
             s = S(**{n: v for n, v in zip(self.snames, row)})
             self.srcs.append(s)
             self._universal(s, 's', k, self.snames)
+        Int_, Range_ = param.Integer, param.Range
+        if case.get('nsread'):
+            def _look(p):
+                o = getattr(p, 'owner', None)
+                if o is not None and p.name:
+                    o.param.objects(instance=False).get(p.name)        # a validator may consult its owner's namespace
+
+            class Int_(param.Integer):
+                def _validate_value(self, val, allow_None):
+                    _look(self)
+                    super()._validate_value(val, allow_None)
+
+            class Range_(param.Range):
+                def _validate_value(self, val, allow_None):
+                    _look(self)
+                    super()._validate_value(val, allow_None)
+        self.locked = set()
         self.tcls, self.tgts, self.tnames = [], [], []
         for t, td in enumerate(case['targets']):
             ns, names = {}, []
@@ -141,9 +169,9 @@ class Runner:
                 kw = dict(bounds=(pd['lo'], pd['hi']), constant=pd['constant'], readonly=pd['readonly'],
                           allow_refs=pd['allow_refs'], nested_refs=pd['nested_refs'], per_instance=pd.get('per_instance', True))
                 if pd['kind'] == 'int':
-                    ns[f'p{i}'] = param.Integer(default=pd['default'], **kw)
+                    ns[f'p{i}'] = Int_(default=pd['default'], **kw)
                 else:
-                    ns[f'p{i}'] = param.Range(default=tuple(pd['default']), **kw)
+                    ns[f'p{i}'] = Range_(default=tuple(pd['default']), **kw)
                 names.append(f'p{i}')
             ns['e_'] = param.Event()
             if case.get('sub'):
@@ -182,7 +210,19 @@ class Runner:
                 return _err_name(e)
             self.tgts.append(obj)
             self._universal(obj, 't', t, self.tnames[t])
+        for h in self.case.get('hooks', []):
+            self._hook(h)
         return None
+
+    def _hook(self, h):
+        obj, names = self.tgts[h['t']], self.tnames[h['t']]
+
+        def cb(*events, _o=obj, _n=names[h['b']], _k=h['k']):
+            try:
+                setattr(_o, _n, _k)
+            except (ValueError, TypeError):
+                pass
+        obj.param.watch(cb, [names[h['a']]], onlychanged=False)
 
     def _universal(self, obj, kind, idx, names):
         def cb(*events, _kind=kind, _idx=idx, _names=names):
@@ -263,8 +303,11 @@ class Runner:
             # the `constant` flag of every Parameter object: the one the instance uses (its own copy if it has
             # one) and the class-level one â€” `_sync_refs` writes constants under edit_constant, which must put
             # every flag back whether or not the write succeeds
-            flags = [int(bool((instp.get(n) or clsp[n]).constant)) for n in self.tnames[t]] + \
+            # (a flag the harness set itself with a `lock` operation is reported as declared)
+            flags = [int(bool((instp.get(n) or clsp[n]).constant)) - int((t, i) in self.locked) for i, n in enumerate(self.tnames[t])] + \
                     [int(bool(clsp[n].constant)) for n in self.tnames[t]]
+            # the cached `.param` namespace of the class names the Parameter that attribute lookup finds
+            flags += [int(clsp[n] is inspect.getattr_static(self.tcls[t], n)) for n in self.tnames[t]]
             rows.append([int(bool(obj.e_)), self.MODES.get(ev._mode, 9), self.MODES.get(clsev._mode, 9)] + flags +
                         sorted(self.tnames[t].index(n) if n in self.tnames[t] else 99 for n in obj._param__private.syncing))
         last = self.wit.param.inspect_value('a')
@@ -282,6 +325,18 @@ class Runner:
             # a callable would be taken for a Dynamic value; `T.p = <Parameter>` redefines the parameter
             raise NotImplementedError
         if o in ('update', 'ctxEnter') and not all(key_supported(tds[op['t']], p, r) for p, r in op['kvs']):
+            raise NotImplementedError
+        if o == 'lock':
+            pd = tds[op['t']]['params'][op['p']] if op['p'] < len(tds[op['t']]['params']) else None
+            if pd is None or pd['constant'] or pd['readonly'] or not pd.get('per_instance', True) or pd['kind'] != 'int':
+                raise NotImplementedError
+            self.tgts[op['t']].param[self.tnames[op['t']][op['p']]].constant = True
+            self.locked.add((op['t'], op['p']))
+            return
+        # a parameter locked on the instance takes plain values only (mirror of Lean `lockedOk`)
+        if o == 'set' and (op['t'], op['p']) in self.locked and not rhs_is_lit(op['rhs']):
+            raise NotImplementedError
+        if o in ('update', 'ctxEnter') and any((op['t'], p) in self.locked and not rhs_is_lit(r) for p, r in op['kvs']):
             raise NotImplementedError
         if o == 'set':
             setattr(self.tgts[op['t']], self.tnames[op['t']][op['p']], self.mk_rhs(op['rhs']))
@@ -303,11 +358,16 @@ class Runner:
                 r = self.tgts[t].param.update(kw)      # an iterable of pairs keeps duplicate keys as written
             if o == 'ctxEnter':
                 r.__enter__()
-                self.stack.append(r)
+                self.stack.append((r, t))
         elif o == 'ctxExit':
             if not self.stack:
                 raise IndexError('no open context')
-            self.stack.pop().__exit__(None, None, None)
+            r, rt = self.stack[-1]
+            # restoring a *link* onto a parameter locked meanwhile is outside the model (see `lockedOk`)
+            if any((rt, self.tnames[rt].index(n)) in self.locked for n in r._refs if n in self.tnames[rt]):
+                raise NotImplementedError
+            self.stack.pop()
+            r.__exit__(None, None, None)
         elif o == 'srcSet':
             setattr(self.srcs[op['s']], self.snames[op['i']], op['v'])
         else:
@@ -373,7 +433,8 @@ def rhs_skips(rhs, src, nested):
 def applied_prefix(case, t, kvs, st, src_before):
     """how many leading keys of a rejected update were applied: announced to the universal watcher, or a
     reference whose evaluation raised Skip (linked, nothing stored, nothing announced)"""
-    announced = {e[0] for x in st['log'] if x[0] == 't' and x[1] == t for e in x[2]}
+    first = [x for x in st['log'] if x[0] == 't' and x[1] == t][:1]     # the flush of the update itself
+    announced = {e[0] for x in first for e in x[2]}
     pds = case['targets'][t]['params']
     n = 0
     for p, rhs in kvs:
@@ -481,8 +542,8 @@ def val_ok(pd, v):
     return pd['kind'] == 'pair' and len(v) == 2 and all(inb(x) for x in v)
 
 
-def mk_case(prop, src_init, targets, ops, nsp=2, sub=False):
-    return {'prop': prop, 'nsp': nsp, 'sub': sub, 'src_init': [list(r) for r in src_init],
+def mk_case(prop, src_init, targets, ops, nsp=2, sub=False, hooks=(), falsy_src=False, nsread=False):
+    return {'prop': prop, 'nsp': nsp, 'sub': sub, 'hooks': [dict(h) for h in hooks], 'falsy_src': falsy_src, 'nsread': nsread, 'src_init': [list(r) for r in src_init],
             'targets': [{'params': [dict(p) for p in t['params']], 'ctor': t.get('ctor', [])} for t in targets],
             'ops': ops}
 
@@ -534,16 +595,27 @@ def rand_plain(rng, pd, want_valid=True):
     return lit(rng.choice([50, 77] if pd['hi'] is not None else [-50]))
 
 
-def gen_history(rng, targets, src, n_ops, nsrc, nsp, p_bad_src=0.06):
+def lockable(pd):
+    return not pd['constant'] and not pd['readonly'] and pd.get('per_instance', True) and pd['kind'] == 'int'
+
+
+def gen_history(rng, targets, src, n_ops, nsrc, nsp, p_bad_src=0.06, locked=None):
     """mostly successful operations; mutates the generator's shadow of the source values"""
     ops = []
     depth = 0
+    locked = set() if locked is None else locked
     for _ in range(n_ops):
         t = rng.randrange(len(targets))
         pds = targets[t]['params']
-        linkable = [i for i, pd in enumerate(pds) if pd['allow_refs'] and not pd['readonly'] and not pd['constant']]
+        # (a parameter locked on the instance rejects assignments: it is left to the sync and to the rejection stage)
+        linkable = [i for i, pd in enumerate(pds) if pd['allow_refs'] and not pd['readonly'] and not pd['constant']
+                    and (t, i) not in locked]
         r = rng.random()
-        if r < 0.30:
+        if r < 0.05 and any(lockable(pd) for pd in pds):
+            p = rng.choice([i for i, pd in enumerate(pds) if lockable(pd)])
+            locked.add((t, p))
+            ops.append({'op': 'lock', 't': t, 'p': p})
+        elif r < 0.30:
             s, i = rng.randrange(nsrc), rng.randrange(nsp)
             v = rng.randint(0, 5) if rng.random() > p_bad_src else rng.randint(11, 30)
             src[s][i] = v
@@ -576,6 +648,8 @@ def gen_history(rng, targets, src, n_ops, nsrc, nsp, p_bad_src=0.06):
             p = rng.randrange(len(pds) + 1)
             pd = pds[p] if p < len(pds) else pds[0]
             rhs = rng.choice([rand_plain(rng, pd, rng.random() < 0.5), rand_ref(rng, nsrc, nsp, pd, src, rng.random() < 0.5)])
+            if (t, p) in locked:
+                rhs = rand_plain(rng, pd, rng.random() < 0.7)
             ops.append({'op': rng.choice(['set', 'update']), 't': t, 'p': p, 'rhs': rhs})
             if ops[-1]['op'] == 'update':
                 o = ops.pop()
@@ -583,7 +657,7 @@ def gen_history(rng, targets, src, n_ops, nsrc, nsp, p_bad_src=0.06):
     return ops
 
 
-REJ_KINDS = ('plain', 'ref', 'nested', 'const', 'readonly', 'gen')
+REJ_KINDS = ('plain', 'ref', 'nested', 'const', 'readonly', 'gen', 'locked')
 REJ_ROUTES = ('set', 'setCls', 'update', 'updateLater', 'ctxEnter')
 
 
@@ -625,6 +699,13 @@ def rejected_op(rng, targets, src, nsrc, nsp, kind, route, t=None, prefer=None):
             return None
         p = rng.choice(c)
         rhs = rng.choice([lit(rng.choice([8, 9])), rand_ref(rng, nsrc, nsp, pds[p], src)]) if pds[p]['allow_refs'] else lit(9)
+    elif kind == 'locked':
+        # a parameter made constant on the instance (the caller puts the `lock` in front); plain values only
+        c = pick(lambda pd: lockable(pd))
+        if not c or route == 'setCls':
+            return None
+        p = rng.choice(c)
+        rhs = rand_plain(rng, pds[p], rng.random() < 0.85)
     elif kind == 'gen':
         # the shared number generator (already the value of the witness parameter) handed to a readonly Integer
         c = [i for i, pd in enumerate(pds) if pd['readonly'] and pd['kind'] == 'int']
@@ -655,6 +736,16 @@ def rejected_op(rng, targets, src, nsrc, nsp, kind, route, t=None, prefer=None):
     if ev:
         op['ev'] = ev           # the update also names the target's Event parameter
     return op
+
+
+def cls_probe(rng, targets):
+    """re-assign the class default of every assignable parameter: an instance that holds no value of its own follows"""
+    ops = []
+    for t, td in enumerate(targets):
+        for p, pd in enumerate(td['params']):
+            if not pd['readonly']:
+                ops.append({'op': 'setCls', 't': t, 'p': p, 'rhs': rand_plain(rng, pd), 'note': 'probe'})
+    return ops
 
 
 def probe_suffix(rng, src, nsrc, nsp, rounds=1):
@@ -696,28 +787,57 @@ def rand_targets(rng, nsrc, nsp, src, ntargets=None):
     return targets
 
 
+def rand_hooks(rng, targets):
+    """user watchers that assign a plain value to another parameter of the same object; no chains"""
+    hooks = []
+    for _ in range(rng.choice([0, 0, 1, 1, 2])):
+        t = rng.randrange(len(targets))
+        pds = targets[t]['params']
+        if len(pds) < 2:
+            continue
+        a, b = rng.sample(range(len(pds)), 2)
+        if pds[b]['readonly'] or pds[b]['kind'] != 'int':
+            continue
+        if any(h['t'] == t and (h['a'] == b or h['b'] == a) for h in hooks):
+            continue
+        hooks.append({'t': t, 'a': a, 'b': b, 'k': rng.choice([0, 3, 6, 9, 9, 50])})
+    return hooks
+
+
 def gen_case(rng, prop, max_ops=10):
     nsrc, nsp = rng.choice([2, 2, 3]), 2
     src = [[rng.randint(0, 5) for _ in range(nsp)] for _ in range(nsrc)]
     init = [list(r) for r in src]
     targets = rand_targets(rng, nsrc, nsp, src)
+    locked = set()
     ops = gen_history(rng, targets, src, rng.randint(0, max_ops), nsrc, nsp,
-                      p_bad_src=0.0 if prop == 'C02' and rng.random() < 0.7 else 0.06)
+                      p_bad_src=0.0 if prop == 'C02' and rng.random() < 0.7 else 0.06, locked=locked)
     if prop == 'C02':
         for _ in range(rng.choice([1, 1, 2])):
             for _ in range(8):
-                rj = rejected_op(rng, targets, src, nsrc, nsp, rng.choice(REJ_KINDS), rng.choice(REJ_ROUTES))
+                kind = rng.choice(REJ_KINDS)
+                rj = rejected_op(rng, targets, src, nsrc, nsp, kind, rng.choice(REJ_ROUTES))
                 if rj:
+                    if kind == 'locked':
+                        for q in ([rj['p']] if 'p' in rj else [k for k, _ in rj['kvs'][-1:]]):
+                            ops.append({'op': 'lock', 't': rj['t'], 'p': q})
+                            locked.add((rj['t'], q))
+                    if 'kvs' in rj:        # the keys before the rejected one must be assignable
+                        rj['kvs'] = [kv for kv in rj['kvs'][:-1] if (rj['t'], kv[0]) not in locked] + rj['kvs'][-1:]
                     ops.append(rj)
                     break
             ops += probe_suffix(rng, src, nsrc, nsp, rounds=rng.choice([1, 1, 2]))
+            if rng.random() < 0.5:
+                ops += cls_probe(rng, targets)
     else:
-        ops += gen_history(rng, targets, src, rng.randint(0, 4), nsrc, nsp)
+        ops += gen_history(rng, targets, src, rng.randint(0, 4), nsrc, nsp, locked=locked)
         while sum(1 for o in ops if o['op'] == 'ctxEnter') > sum(1 for o in ops if o['op'] == 'ctxExit') and rng.random() < 0.8:
             ops.append({'op': 'ctxExit'})
         if rng.random() < 0.5:
             ops += probe_suffix(rng, src, nsrc, nsp)
-    return mk_case(prop, init, targets, ops, nsp, sub=(prop == 'C02' and rng.random() < 0.5))
+    return mk_case(prop, init, targets, ops, nsp, sub=(prop == 'C02' and rng.random() < 0.5),
+                   hooks=rand_hooks(rng, targets) if rng.random() < 0.45 else (), falsy_src=rng.random() < 0.25,
+                   nsread=rng.random() < 0.35)
 
 
 def _strip_own(o):
@@ -738,6 +858,7 @@ def compare(impl, model):
 
 def tags(case, impl):
     t = [f'targets={len(case["targets"])}', f'len={min(len(case["ops"]), 12)}', 'subclass' if case.get('sub') else 'direct-class']
+    t += ['hooks'] * bool(case.get('hooks')) + ['falsy-sources'] * bool(case.get('falsy_src')) + ['nsread-validators'] * bool(case.get('nsread'))
     shared = {(ti, pi) for ti, td in enumerate(case['targets']) for pi, pd in enumerate(td['params']) if not pd.get('per_instance', True)}
     for ti, td in enumerate(case['targets']):
         for p, rhs in td['ctor']:
